@@ -6,10 +6,11 @@ Import ListNotations.
 Open Scope Z_scope.
 
 (* rrulestr(str(rule)) rebuilds the rule: same start, same derived BY-fields, same recorded
-   arguments.  Guards: calendar.firstweekday() = 0; no empty BY tuples and no 0 in BYMONTHDAY
+   arguments.  Guards: calendar.firstweekday() = 0 or the rule's week start is not MO (exactly the
+   complement of F-C13-c: __str__ omits WKST only when it is 0); no empty BY tuples and no 0 in BYMONTHDAY
    (wf_args); naive start and until, whole seconds, RFC value ranges (wf_rule). *)
 Theorem str_roundtrip ev o st kw r :
-  ctor ev (Some st) kw = Ok r -> e_fwd ev = 0 -> wf_args kw = true -> wf_rule r = true ->
+  ctor ev (Some st) kw = Ok r -> (e_fwd ev = 0 \/ r_wkst r <> 0) -> wf_args kw = true -> wf_rule r = true ->
   o_forceset o = false -> o_compatible o = false -> o_ignoretz o = false -> o_unfold o = false ->
   parse_rfc ev o (to_str r) = RRule (o_cache o) r.
 Proof.
@@ -55,7 +56,7 @@ Qed.
 (* with a fractional until: the re-read rule is the rule with until truncated to whole seconds
    (occurrences have microsecond 0, so the occurrence set is the same) *)
 Theorem str_roundtrip_until_us ev o st kw r :
-  ctor ev (Some st) kw = Ok r -> e_fwd ev = 0 -> wf_args kw = true -> wf_rule (trunc_until r) = true ->
+  ctor ev (Some st) kw = Ok r -> (e_fwd ev = 0 \/ r_wkst r <> 0) -> wf_args kw = true -> wf_rule (trunc_until r) = true ->
   o_forceset o = false -> o_compatible o = false -> o_ignoretz o = false -> o_unfold o = false ->
   parse_rfc ev o (to_str r) = RRule (o_cache o) (trunc_until r).
 Proof.
@@ -74,14 +75,29 @@ Definition kw_wkst : kwargs :=
   mkkw (Some 2) (Some 2) (Some 0) (Some 6) None None None None None None None
        (Some [mkwd 6 None; mkwd 0 None]) None None None.
 Theorem str_roundtrip_firstweekday_refuted : exists ev st kw r,
-  ctor ev (Some st) kw = Ok r /\ e_fwd ev <> 0 /\ wf_args kw = true /\ wf_rule r = true /\
+  ctor ev (Some st) kw = Ok r /\ e_fwd ev <> 0 /\ r_wkst r = 0 /\ wf_args kw = true /\ wf_rule r = true /\
   parse_rfc ev o_default (to_str r) <> RRule false r.
 Proof.
   exists (mkenv 6 d2000), d2000, kw_wkst.
   destruct (ctor (mkenv 6 d2000) (Some d2000) kw_wkst) as [r|] eqn:E; [|vm_compute in E; discriminate].
   exists r. split; [reflexivity|]. vm_compute in E. injection E as <-.
-  split; [discriminate|]. split; [reflexivity|]. split; [reflexivity|]. vm_compute. discriminate.
+  split; [discriminate|]. split; [reflexivity|]. split; [reflexivity|]. split; [reflexivity|]. vm_compute. discriminate.
 Qed.
+
+(* ... and only then: with calendar.firstweekday() = 6 the same rule with wkst=TU, or with no wkst
+   argument at all (the rule gets wkst=SU and __str__ writes it), does round-trip *)
+Definition kw_wkst_tu : kwargs :=
+  mkkw (Some 2) (Some 2) (Some 1) (Some 6) None None None None None None None
+       (Some [mkwd 6 None; mkwd 0 None]) None None None.
+Definition kw_wkst_none : kwargs :=
+  mkkw (Some 2) (Some 2) None (Some 6) None None None None None None None
+       (Some [mkwd 6 None; mkwd 0 None]) None None None.
+Example str_roundtrip_firstweekday_other_wkst :
+  (exists r, ctor (mkenv 6 d2000) (Some d2000) kw_wkst_tu = Ok r /\ r_wkst r = 1 /\
+             parse_rfc (mkenv 6 d2000) o_default (to_str r) = RRule false r) /\
+  (exists r, ctor (mkenv 6 d2000) (Some d2000) kw_wkst_none = Ok r /\ r_wkst r = 6 /\
+             parse_rfc (mkenv 6 d2000) o_default (to_str r) = RRule false r).
+Proof. split; eexists; (split; [vm_compute; reflexivity|]); split; vm_compute; reflexivity. Qed.
 
 (* empty BY tuple (outside the rule space): rrule(YEARLY, bymonth=()) *)
 Definition kw_empty_month : kwargs :=
